@@ -394,6 +394,52 @@ def parse_behaviour_file(path, want_states=True):
     return steps
 
 
+_ERRSTATE = re.compile(r"^State (\d+): <(\w+)(?:\((.*)\))? line \d+, col \d+ to line \d+, col \d+ of module (\w+)>")
+
+
+def parse_error_trace(out):
+    """Parse the counterexample printed by TLC ("State n: <Action(args) line ...>" blocks) into the
+    same step list as parse_behaviour_file.  Returns [] if the output holds no error trace."""
+    steps = []
+    cur = None
+    buf = []
+
+    def flush():
+        nonlocal cur, buf
+        if cur is None:
+            return
+        text = "\n".join(buf)
+        state = {}
+        for p in re.split(r"^/\\ ", text, flags=re.M):
+            p = p.strip()
+            m = re.match(r"(\w+) = (.*)$", p, re.S)
+            if m:
+                state[m.group(1)] = parse_tla(m.group(2))
+        cur["state"] = state
+        steps.append(cur)
+        cur, buf = None, []
+
+    for ln in out.split("\n"):
+        if ln.startswith("State 1: <Initial predicate>"):
+            flush()
+            cur = {"action": "Init", "args": []}
+            continue
+        m = _ERRSTATE.match(ln)
+        if m:
+            flush()
+            args = parse_tla("<<" + m.group(3) + ">>") if m.group(3) else []
+            cur = {"action": m.group(2), "args": args}
+            continue
+        if cur is not None:
+            if ln.strip() == "" or ln.startswith(("Error:", "Finished", "The ", "Progress")) or re.match(r"^\d+ states generated", ln):
+                if ln.strip() == "":
+                    flush()
+                continue
+            buf.append(ln)
+    flush()
+    return steps
+
+
 def list_behaviour_files(d, prefix):
     out = []
     for fn in os.listdir(d):
